@@ -60,6 +60,17 @@ CHECKS = {
                 'preconditions and redirection of every label/unit/ticks accessor. Value equality on read-back and ticks written '
                 'through the aliased array are not decided.',
     },
+    'C18': {
+        'technique': 'static analysis: constant-table agreement (regex alternatives / factor map / SI exponents), alternation-order '
+                     'rule for leftmost-first regex_search, abstract interpretation of getSIScaling/isScalable with symbolic results '
+                     'on all abstract paths, def-use rules at the conversion sites',
+        'text': 'Decides structural necessary conditions of C18: prefix regex = factor table = 10^e (20 SI prefixes); no searched '
+                'alternative shadows a longer one; on every abstract path getSIScaling returns (F[origin]/F[dest])^power or throws '
+                'InvalidUnit when not scalable, isScalable is true only for two SI units with equal base unit and power; each '
+                'position->index conversion site calls getSIScaling(position unit, dimension unit) and the scaled value reaches '
+                'indexOf; tag units are sanitised and SI-checked before storage. Floating-point exactness, composition a->b->c as a '
+                'numeric identity and selection invariance are not decided.',
+    },
 }
 
 _NYI = 'check not built yet in this session (planned in DESIGN.md); not claimed until its rule runs and is validated'
